@@ -271,6 +271,35 @@ message Decoder { repeated Encoder encoder = 1; }
 """
 
 
+def schema_misc():
+    """option combinations: a message that is always present AND captures unknown fields (as a field, repeated, oneof member, optional),
+    oneof wrappers whose natural names meet nested declarations, a oneof with a single self-referential member, presence options
+    on bytes/string/map fields."""
+    return header("misc") + """
+message M {
+  oneof k { int32 foo = 1; M bar = 2; }
+  message Foo { int32 x = 1; }
+  Foo f = 3;
+  enum Bar { Z = 0; Y = 3; }
+  Bar b = 4;
+}
+message Both {
+  option (pico.message).always_present = true;
+  option (pico.message).capture_unrecognized_fields = true;
+  int32 a = 1;
+}
+message UsesBoth { Both b = 1; repeated Both bs = 2; oneof o { Both ob = 3; } optional Both opt = 4; }
+message Single { oneof only { Single self = 1; } }
+message OptBytes {
+  optional bytes b = 1 [(pico.field).always_present = true];
+  optional string s = 2 [(pico.field).always_present = true];
+  map<bool, bytes> m = 3 [(pico.field).always_present = true];
+  optional bytes pb = 4;
+  repeated bytes rb = 5 [(pico.field).always_present = true];
+}
+"""
+
+
 def schema_bigenum():
     """enum size boundaries (top-level with 20 values, nested with 17, negative and sparse numbers)."""
     s = header("bigenum", pico=False) + "enum Code {\n"
@@ -411,7 +440,7 @@ BOUNDARY = {
 
 def fixed_schemas():
     return {"allmaps": schema_allmaps(), "recur": schema_recur(), "presence": schema_presence(), "order": schema_order(), "casts": schema_casts(),
-            "capone": schema_capone(), "oneofap": schema_oneofap(), "nested": schema_nested(), "empty": schema_empty(), "names": schema_names(), "bigenum": schema_bigenum(), "wkimp": schema_wkimp()}
+            "capone": schema_capone(), "oneofap": schema_oneofap(), "nested": schema_nested(), "empty": schema_empty(), "names": schema_names(), "misc": schema_misc(), "bigenum": schema_bigenum(), "wkimp": schema_wkimp()}
 
 
 def build(schemas, tag="fresh"):
